@@ -37,7 +37,18 @@ def allowed(t, c, guarded=False):
     return all(m < c for m in t[1])
 
 
-def gen_ty(rng, c, toml):
+def canon_union(schema, ms):
+    """typing caches List[Union[A, B]] / Optional[...] / Dict[str, Union[...]] under an order-insensitive key, so
+    within one module a later List[Union[B, A]] silently *is* the earlier List[Union[A, B]].  The generator therefore
+    uses one member order per member set and schema (CPython typing semantics, not mashumaro's)."""
+    uo = schema.setdefault("_uo", {})
+    key = ",".join(str(m) for m in sorted(ms))
+    if key not in uo:
+        uo[key] = list(ms)
+    return list(uo[key])
+
+
+def gen_ty(rng, c, toml, schema=None):
     r = rng.random()
     lk = lambda: rng.choice(["list", "list", "tuple", "dict"])
     if c == 0:
@@ -61,7 +72,7 @@ def gen_ty(rng, c, toml):
         return ["opt", ["dc", c]] if rng.random() < 0.5 else ["list", lk(), ["dc", c]]
     if c >= 2:
         k = 2 if c == 2 or rng.random() < 0.7 else 3
-        ms = rng.sample(range(c), k)
+        ms = canon_union(schema, rng.sample(range(c), k))
         u = ["union", ms]
         r2 = rng.random()
         if r2 < 0.7:
@@ -96,7 +107,8 @@ def gen_schema(rng):
     names = {}
     classes = []
     schema = {"kind": kind, "kw_only": kw_only, "repl": rng.random() < 0.6, "toml_safe": toml,
-              "dialect": kind != "plain" and rng.random() < 0.3, "names": names, "classes": classes}
+              "dialect": kind != "plain" and rng.random() < 0.3, "future_ann": rng.random() < 0.5,
+              "names": names, "classes": classes}
     lookalike = rng.random()
     for c in range(ncls):
         parent = rng.randrange(c) if (inherit and c > 0 and rng.random() < 0.5) else None
@@ -108,7 +120,7 @@ def gen_schema(rng):
             if cands and rng.random() < lookalike:
                 own.append(rng.choice(cands))
             else:
-                t = gen_ty(rng, c, toml)
+                t = gen_ty(rng, c, toml, schema)
                 n = len(names)
                 names[str(n)] = {"ty": t, "default": bool(t[0] == "opt" and opt_defaults)}
                 own.append(n)
@@ -174,7 +186,7 @@ def gen_root_ty(rng, schema, want_dc):
     if r < 0.6:
         return ["opt", ["dc", c]]
     if n >= 2:
-        ms = rng.sample(range(n), 2 if n == 2 or rng.random() < 0.7 else 3)
+        ms = canon_union(schema, rng.sample(range(n), 2 if n == 2 or rng.random() < 0.7 else 3))
         return ["union", ms] if rng.random() < 0.7 else ["list", "list", ["union", ms]]
     return ["dc", c]
 
@@ -229,7 +241,7 @@ def shape_key(schema, root_ty, value, entry):
         if v[0] == "list":
             return ("l", tuple(vs(x) for x in v[2]))
         return v[0]
-    s = json.dumps([schema["kind"], schema["kw_only"], schema["repl"], schema.get("dialect"), schema["names"], schema["classes"], root_ty,
+    s = json.dumps([schema["kind"], schema["kw_only"], schema["repl"], schema.get("dialect"), schema.get("future_ann"), schema["names"], schema["classes"], root_ty,
                     entry], sort_keys=True) + repr(vs(value))
     return hashlib.sha1(s.encode()).hexdigest()[:16]
 
@@ -352,6 +364,7 @@ def run(ctx: vlib.Ctx):
             ctx.notes.append(f"schema {si} not constructible: {type(e).__name__}: {e}"[:300])
             ctx.hist("schemas", "not-constructible")
             return
+        L.check_module_orders(mod, schema)
         envs.append(L.coq_env(schema))
         ei = len(envs) - 1
         ctx.hist("schemas", schema["kind"])
@@ -360,6 +373,7 @@ def run(ctx: vlib.Ctx):
         ctx.hist("schema_features", "repl-hooks", int(schema["repl"]))
         ctx.hist("schema_features", "config-discriminator", int(bool(schema.get("has_disc"))))
         ctx.hist("schema_features", "call-dialect", int(bool(schema.get("dialect"))))
+        ctx.hist("schema_features", "postponed-annotations", int(bool(schema.get("future_ann"))))
         try:
             for root_ty, value in roots:
                 for direction in ("ser", "de"):
